@@ -425,7 +425,9 @@ def seed_defect(rng, case, names, defect):
         subs = [L._dget(it['d'], 'name')[1] for it in L.flat_items(g['result'])
                 if it['k'] == 'dict' and (L._dget(it['d'], 'name') or ['none'])[0] == 'str']
         nm = rng.choice([g['name'], g['name'] + ':' + (rng.choice(subs) if subs else 's0'), g['name'] + '0'])
-        g['result']['items'].append({'k': 'task', 't': {'name': nm, 'task_dep': []}})
+        # round 6: the Task object comes BEFORE the dicts half of the time (the duplicate is then met by the dict path)
+        pos = 0 if rng.random() < 0.5 else len(g['result']['items'])
+        g['result']['items'].insert(pos, {'k': 'task', 't': {'name': nm, 'task_dep': []}})
     elif defect == 'dup-subtask-taskobj' and gens:
         g = rng.choice(gens)
         subs = [L._dget(it['d'], 'name')[1] for it in L.flat_items(g['result'])
